@@ -24,22 +24,45 @@ namespace
     //  (start = now - b*2, interval b), 5 plan other a in the future (start=now, interval b), 6 destroy other a
     enum { OP_TICK, OP_PLAN, OP_UNPLAN, OP_SCRIPT, OP_DESTROY, OP_REPLAN_SAME, OP_N };
 
-    struct TimerWorld;
-    struct SimTimer : igris::timer_head
+    // The manager is a template over its time base (timer_spec<Time>): the world is instantiated for the stock 64-bit
+    // tick counter, for a floating-point time base with fractional deadlines, and for a 32-bit counter; the run's
+    // clock resolution (how many time units one plan tick is) is a configuration of the run.
+    template <class TT> struct TimerWorldT;
+    template <class TT> struct SimTimerT : igris::timer_head_basic<igris::timer_spec<TT>>
     {
-        TimerWorld *w;
+        TimerWorldT<TT> *w;
         int id;
-        SimTimer(TimerWorld *w, int id) : w(w), id(id) {}
+        SimTimerT(TimerWorldT<TT> *w, int id) : w(w), id(id) {}
         void execute() override;
     };
 
-    struct Model
+    template <class TT> struct ModelT
     {
-        int64_t start = 0, interval = 1;
+        TT start = 0, interval = 1;
         bool planned = false;
         int mg = 0; // which manager it is planned in
-        int64_t finish() const { return start + interval; }
-        bool due(int64_t now) const { return planned && now - start >= interval; }
+        TT finish() const { return start + interval; }
+        bool due(TT now) const { return planned && now - start >= interval; }
+    };
+    typedef ModelT<int64_t> Model;
+    template <class TT> struct Units;
+    template <> struct Units<int64_t>
+    {
+        static const char *name() { return "timer_manager"; }
+        static int64_t unit(int64_t k) { static const int64_t u[] = {1, 1, 1000, 1ll << 22, 1ll << 31, 1000000}; return u[mod(k, 6)]; }
+        static int64_t tmax() { return INT64_MAX; }
+    };
+    template <> struct Units<double>
+    {
+        static const char *name() { return "timer_manager<double>"; }
+        static double unit(int64_t k) { static const double u[] = {0.25, 0.25, 0.5, 1.0, 0.125, 1024.0}; return u[mod(k, 6)]; }
+        static double tmax() { return 1e300; }
+    };
+    template <> struct Units<int32_t>
+    {
+        static const char *name() { return "timer_manager<int32>"; }
+        static int32_t unit(int64_t k) { static const int32_t u[] = {1, 1, 10, 100, 3, 1}; return u[mod(k, 6)]; }
+        static int32_t tmax() { return INT32_MAX; }
     };
     struct Script
     {
@@ -48,20 +71,24 @@ namespace
         int budget = 0;
     };
 
-    struct TimerWorld : World
+    template <class TT> struct TimerWorldT : World
     {
-        const char *name() const override { return "timer_manager"; }
-        unsigned weight(Tier) const override { return 6; }
+        typedef igris::timer_manager_basic<igris::timer_spec<TT>> Manager;
+        typedef SimTimerT<TT> SimTimer;
+        typedef ModelT<TT> Model;
+        const char *name() const override { return Units<TT>::name(); }
+        unsigned weight(Tier) const override { return std::is_same<TT, int64_t>::value ? 6 : 2; }
+        TT S = 1; // time units per plan tick
 
         // run state
-        igris::timer_manager *mgr = nullptr;  // the manager whose exec() is running / that plan ops address
-        igris::timer_manager *mgrs[2] = {nullptr, nullptr};
+        Manager *mgr = nullptr;  // the manager whose exec() is running / that plan ops address
+        Manager *mgrs[2] = {nullptr, nullptr};
         int cur_mg = 0;
         int nmgr = 1;
         std::vector<std::unique_ptr<SimTimer>> tim;
         std::vector<Model> model;
         std::vector<Script> script;
-        int64_t now = 0;
+        TT now = 0;
         Trace *tr = nullptr;
         int executing = -1;
         uint64_t callbacks = 0, fires_this_exec = 0;
@@ -80,7 +107,7 @@ namespace
             unsigned script_pm = (unsigned)r.pick<int64_t>({0, 100, 300});
             // where on the time axis the run starts: far positive, around zero, negative (signed/unsigned mistakes live there)
             int64_t origin = r.pick<int64_t>({1000, 1000, 0, -30, -3000, 5});
-            p.cfg = {nt, origin, r.chance(1, 3) ? 1 : 0};
+            p.cfg = {nt, origin, r.chance(1, 3) ? 1 : 0, (int64_t)r.below(6)};
             int nops = (int)r.range(5, tier == THOROUGH ? 120 : 60);
             auto interval = [&]() -> int64_t {
                 if (equal_deadlines) return r.pick<int64_t>({1, 2, 4}) * period;
@@ -119,7 +146,7 @@ namespace
 
         std::string describe(const Plan &p) override
         {
-            std::string s = "timers=" + std::to_string(p.c(0)) + " ops:";
+            std::string s = "timers=" + std::to_string(p.c(0)) + " time_units_per_tick=" + std::to_string((double)Units<TT>::unit(p.c(3, 0))) + " ops:";
             static const char *nm[] = {"tick+", "plan", "unplan", "script", "destroy", "replan_same"};
             for (auto &o : p.ops)
             {
@@ -133,9 +160,9 @@ namespace
         }
 
         // ---- model helpers
-        int64_t min_deadline(int mg) const
+        TT min_deadline(int mg) const
         {
-            int64_t m = INT64_MAX;
+            TT m = Units<TT>::tmax();
             for (auto &t : model)
                 if (t.planned && t.mg == mg && t.finish() < m) m = t.finish();
             return m;
@@ -147,7 +174,7 @@ namespace
             return false;
         }
 
-        void do_plan(int t, int64_t start, int64_t iv)
+        void do_plan(int t, TT start, TT iv)
         {
             mgrs[cur_mg]->plan(*tim[t], start, iv);
             model[t].start = start;
@@ -177,8 +204,8 @@ namespace
                     violate("C16/is_planned", "%s: timer %d is_planned=%d model=%d", where, i, (int)tim[i]->is_planned(),
                             (int)model[i].planned);
                 if (model[i].planned && tim[i]->finish() != model[i].finish())
-                    violate("C16/rearm", "%s: timer %d finish=%lld model=%lld", where, i, (long long)tim[i]->finish(),
-                            (long long)model[i].finish());
+                    violate("C16/rearm", "%s: timer %d finish=%.17g model=%.17g", where, i, (double)tim[i]->finish(),
+                            (double)model[i].finish());
             }
             for (int g = 0; g < nmgr; g++)
             {
@@ -186,10 +213,10 @@ namespace
                 if (mgrs[g]->empty() != e) violate("C16/empty", "%s: manager %d empty()=%d model=%d", where, g, (int)mgrs[g]->empty(), (int)e);
                 if (!e)
                 {
-                    int64_t mi = mgrs[g]->minimal_interval(now);
+                    TT mi = mgrs[g]->minimal_interval(now);
                     if (mi != min_deadline(g) - now)
-                        violate("C16/minimal_interval", "%s: manager %d minimal_interval=%lld model=%lld", where, g, (long long)mi,
-                                (long long)(min_deadline(g) - now));
+                        violate("C16/minimal_interval", "%s: manager %d minimal_interval=%.17g model=%.17g", where, g, (double)mi,
+                                (double)(min_deadline(g) - now));
                 }
             }
         }
@@ -198,19 +225,19 @@ namespace
         {
             callbacks++;
             fires_this_exec++;
-            tr->ev("fire t%d now=%lld", id, (long long)now);
+            tr->ev("fire t%d now=%.17g", id, (double)now);
             if (!in_exec) violate("C16/fire-outside-exec", "timer %d fired outside exec", id);
             if (callbacks > 500000) violate("C16/livelock", "more than 500000 callbacks in one run");
             Model &m = model[id];
-            if (!m.planned) violate("C16/unplanned-fired", "timer %d fired while not planned (now=%lld)", id, (long long)now);
+            if (!m.planned) violate("C16/unplanned-fired", "timer %d fired while not planned (now=%.17g)", id, (double)now);
             if (!m.due(now))
-                violate("C16/early", "timer %d fired early: now=%lld start=%lld interval=%lld", id, (long long)now,
-                        (long long)m.start, (long long)m.interval);
+                violate("C16/early", "timer %d fired early: now=%.17g start=%.17g interval=%.17g", id, (double)now,
+                        (double)m.start, (double)m.interval);
             if (m.mg != cur_mg) violate("C16/fired-by-wrong-manager", "timer %d is planned in manager %d but was fired by exec() of manager %d", id, m.mg, cur_mg);
-            int64_t md = min_deadline(cur_mg);
+            TT md = min_deadline(cur_mg);
             if (m.finish() != md)
-                violate("C16/order", "timer %d (deadline %lld) fired before a pending timer with deadline %lld", id,
-                        (long long)m.finish(), (long long)md);
+                violate("C16/order", "timer %d (deadline %.17g) fired before a pending timer with deadline %.17g", id,
+                        (double)m.finish(), (double)md);
             // scripted callback body
             Script &s = script[id];
             executing = id;
@@ -218,7 +245,7 @@ namespace
             {
                 s.budget--;
                 int o = (int)mod(s.a, n);
-                int64_t iv = s.b < 1 ? 1 : s.b;
+                TT iv = (TT)(s.b < 1 ? 1 : s.b) * S;
                 switch (s.kind)
                 {
                 case 1:
@@ -267,7 +294,10 @@ namespace
             Result res;
             tr = &t;
             n = (int)mod(p.c(0) - 1, 8) + 1;
-            igris::timer_manager manager, manager2;
+            Manager manager, manager2;
+            S = Units<TT>::unit(p.c(3, 0));
+            if (S != 1) probe(S > 1 ? "fine_clock_resolution" : "fractional_time_base");
+            int64_t ticks = 0;
             mgr = &manager;
             mgrs[0] = &manager;
             mgrs[1] = &manager2;
@@ -278,7 +308,7 @@ namespace
             script.assign(n, Script());
             for (int i = 0; i < n; i++) tim.emplace_back(new SimTimer(this, i));
             int64_t origin = p.c(1, 1000) % 100000;
-            now = origin;
+            now = (TT)origin * S;
             if (origin <= 0) probe("time_origin_not_positive");
             callbacks = 0;
             pending_changed = false;
@@ -286,7 +316,7 @@ namespace
             bool catchup = false;
             struct Cleanup
             {
-                TimerWorld *w;
+                TimerWorldT *w;
                 ~Cleanup() { w->tim.clear(); w->mgr = nullptr; }
             } cleanup{this};
             check_state("init");
@@ -299,13 +329,14 @@ namespace
                 case OP_TICK:
                 {
                     int64_t dt = mod(arg(o, 1), 2001);
-                    now += dt;
+                    now += (TT)dt * S;
+                    ticks += dt;
                     if (dt >= 30) fault("stall");
-                    t.ev("exec now=%lld", (long long)now);
+                    t.ev("exec now=%.17g", (double)now);
                     fires_this_exec = 0;
                     // equal-deadline probe
                     {
-                        std::map<int64_t, int> seen;
+                        std::map<TT, int> seen;
                         for (auto &m : model)
                             if (m.planned && m.due(now) && ++seen[m.finish()] == 2) probe("equal_deadlines");
                     }
@@ -320,8 +351,8 @@ namespace
                     cur_mg = 0;
                     for (int i = 0; i < n; i++)
                         if (model[i].due(now))
-                            violate("C16/missed", "after exec(%lld) timer %d is still due (start=%lld interval=%lld)",
-                                    (long long)now, i, (long long)model[i].start, (long long)model[i].interval);
+                            violate("C16/missed", "after exec(%.17g) timer %d is still due (start=%.17g interval=%.17g)",
+                                    (double)now, i, (double)model[i].start, (double)model[i].interval);
                     if (fires_this_exec >= 2) catchup = true;
                     if (fires_this_exec >= 10) probe("catch_up_ge_10");
                     break;
@@ -332,7 +363,7 @@ namespace
                     int64_t back = arg(o, 2) % 20000;
                     cur_mg = (int)mod(arg(o, 4), nmgr);
                     t.ev("plan t%d in manager %d start=now-%lld iv=%lld", ti, cur_mg, (long long)back, (long long)iv);
-                    do_plan(ti, now - back, iv);
+                    do_plan(ti, now - (TT)back * S, (TT)iv * S);
                     cur_mg = 0;
                     if (back >= iv) fault("planned_overdue");
                     break;
@@ -372,7 +403,7 @@ namespace
                 check_state("teardown");
             }
             res.steps = t.nev;
-            res.simtime = (uint64_t)(now - origin);
+            res.simtime = (uint64_t)ticks;
             res.nontrivial = catchup || pending_changed;
             stat("callbacks", callbacks);
             stat("sim_ticks", res.simtime);
@@ -380,7 +411,7 @@ namespace
         }
     };
 
-    void SimTimer::execute() { w->on_fire(id); }
+    template <class TT> void SimTimerT<TT>::execute() { w->on_fire(id); }
 
     // ---------------------------------------------------------------- stimer world
     // ops: [0,dt] advance; [1,t,back,iv] stimer_plan; [2,t,back,iv] stimer_init (not planned);
@@ -504,11 +535,13 @@ namespace
 
 int main(int argc, char **argv)
 {
-    TimerWorld tw;
+    TimerWorldT<int64_t> tw;
+    TimerWorldT<double> twd;
+    TimerWorldT<int32_t> tw32;
     StimerWorld sw;
     Harness h;
     h.property = "C16";
-    h.worlds = {&tw, &sw};
+    h.worlds = {&tw, &sw, &twd, &tw32};
     h.real = {"igris/time/timer_manager.h", "igris/container/dlist.h+dlist.cpp", "igris/event/delegate.h (header only, unused path)",
               "igris/sync/syslock_mutex.cpp (single thread)", "igris/datastruct/stimer.c"};
     h.stub = {"simulated clock (now passed into exec/stimer_check)", "main loop with stalls", "client ops", "callback scripts"};
